@@ -1606,8 +1606,9 @@ class Engine:
             return v
         if isinstance(v, (Box, SV)):
             return v
-        if isinstance(ty, TOpt) or ty in (TInt, TReal, TStr, TBool):
-            return v
+        if isinstance(ty, TOpt) and (v is None or isinstance(v, (int, float, str)) and not isinstance(v, bool)):
+            # a local the contract declares Optional holds one typed value on every path
+            return SV(ty, ty.none() if v is None else ty.some(to_z3(v, ty.t)))
         return v
 
     def unpack(self, v, n):
